@@ -73,6 +73,10 @@ class Ace(AceBase):
             self._srcaddr = Address(**srcaddr)
         if dstaddr := kwargs.get("dstaddr") or {}:
             self._dstaddr = Address(**dstaddr)
+        # exported field data carries the identifier and note of the field objects
+        for attr, cls in (("protocol", Protocol), ("srcport", Port), ("dstport", Port), ("option", Option)):
+            if isinstance(data := kwargs.get(attr), dict):
+                setattr(self, f"_{attr}", cls(**data))
         self.line = line
 
     # ========================== redefined ===========================
@@ -206,6 +210,8 @@ class Ace(AceBase):
             version=self.version,
             items=self._srcaddr.items,
             max_ncwb=self.max_ncwb,
+            uuid=self._srcaddr.uuid,
+            note=self._srcaddr.note,
         )
         self._dstaddr = Address(
             ace_d["dstaddr"],
@@ -213,6 +219,8 @@ class Ace(AceBase):
             version=self.version,
             items=self._dstaddr.items,
             max_ncwb=self.max_ncwb,
+            uuid=self._dstaddr.uuid,
+            note=self._dstaddr.note,
         )
         protocol_o = Protocol(
             line=ace_d["protocol"],
@@ -220,6 +228,8 @@ class Ace(AceBase):
             version=self.version,
             port_nr=self._port_nr,
             protocol_nr=self._protocol_nr,
+            uuid=self._protocol.uuid,
+            note=self._protocol.note,
         )
         kwargs_port = dict(
             platform=self._platform,
@@ -227,11 +237,21 @@ class Ace(AceBase):
             protocol=protocol_o.name,
             port_nr=self._port_nr,
         )
-        self._srcport = Port(ace_d["srcport"], **kwargs_port)
-        self._dstport = Port(ace_d["dstport"], **kwargs_port)
+        self._srcport = Port(
+            ace_d["srcport"], uuid=self._srcport.uuid, note=self._srcport.note, **kwargs_port
+        )
+        self._dstport = Port(
+            ace_d["dstport"], uuid=self._dstport.uuid, note=self._dstport.note, **kwargs_port
+        )
         protocol_o.has_port = bool(self._srcport.line or self._dstport.line)
         self._protocol = protocol_o
-        self._option = Option(ace_d["option"], platform=self._platform, version=self.version)
+        self._option = Option(
+            ace_d["option"],
+            platform=self._platform,
+            version=self.version,
+            uuid=self._option.uuid,
+            note=self._option.note,
+        )
 
     @property
     def option(self) -> Option:
